@@ -719,3 +719,45 @@ def copy_completeness_rule(rc, class_refs):
                 continue
             rc.fail(cp, cp.node, f"{cp.qual} does not carry over `{a}` (set in {attrs[a]}.__init__): the copy silently differs from the original in `{a}`",
                     construct=f"{name}.copy loses {a}")
+
+
+# -------------------------------------------------------------------------------------------------
+# graphs rebuilt from an edge list
+_GRAPH_CLASSES = ("DAG", "PDAG", "BayesianNetwork", "MarkovNetwork", "ClusterGraph", "JunctionTree", "FactorGraph", "UndirectedGraph", "Graph", "DiGraph",
+                  "DynamicBayesianNetwork", "LinearGaussianBayesianNetwork", "NaiveBayes")
+
+
+def rebuilt_from_edges_rule(rc, prefixes, exempt=(), only=None):
+    """`G2 = SomeGraph(G.edges())` keeps only the nodes that have an edge.  Unless the same function also hands over `G.nodes()`
+    (`G2.add_nodes_from(G.nodes())`), a variable without any edge — an independent variable, a single clique, a root without children — is silently
+    lost, and with it its CPD / factor."""
+    repo = rc.repo
+    n = 0
+    for f in repo.all_functions():
+        if not f.file.startswith(tuple(prefixes)):
+            continue
+        if only is not None and not only(f):
+            continue
+        for c in [x for x in ast.walk(f.node) if isinstance(x, ast.Call)]:
+            if not (isinstance(c.func, (ast.Name, ast.Attribute)) and call_name(c) in _GRAPH_CLASSES and len(c.args) >= 1):
+                continue
+            a0 = c.args[0]
+            if not (isinstance(a0, ast.Call) and call_name(a0) == "edges" and isinstance(a0.func, ast.Attribute) and not a0.args):
+                continue
+            src = norm(a0.func.value)
+            n += 1
+            par = getattr(c, "_parent", None)
+            tgt = dotted(par.targets[0]) if isinstance(par, ast.Assign) and len(par.targets) == 1 else None
+            ok = False
+            for c2 in [x for x in ast.walk(f.node) if isinstance(x, ast.Call)]:
+                if call_name(c2) == "add_nodes_from" and c2.args and isinstance(c2.func, ast.Attribute):
+                    recv = dotted(c2.func.value)
+                    arg = norm(c2.args[0])
+                    if (tgt is None or recv == tgt) and (arg.startswith(src + ".nodes") or arg == src or arg.startswith(f"list({src}.nodes") or arg.startswith("self.variables")):
+                        ok = True
+            key = f"{f.qual}: {call_name(c)}({src}.edges())"
+            rc.ob(f"{f.file}:{key}: nodes handed over as well: {ok}")
+            if not ok and key not in exempt:
+                rc.fail(f, c, f"{f.qual} rebuilds a graph from `{src}.edges()` only: nodes of `{src}` without any edge (isolated variables / cliques) are lost — and with them their CPDs or factors",
+                        construct=f"{f.qual} graph from edges only: {call_name(c)}({src}.edges())")
+    rc.ob(f"{n} graph construction(s) from an edge list under {list(prefixes)}")
